@@ -15,7 +15,7 @@ RULE = (
     "file; state = (mode vector, program, record)"
 )
 BOUNDS = {
-    "quick": "all comments of <=3 chunks over 10 chunk kinds x 3 placements (x 2 programs); 10 programs x 12 files x 32 mode vectors",
+    "quick": "all comments of <=3 chunks over 10 chunk kinds x 3 placements (x 2 programs); 10 programs x 12 files x 32 mode vectors (4 programs also under the scans 1*, 1+3, 2-3)",
     "thorough": "comments of <=5 chunks; 10 programs x all 1,093 files of <=6 records x 32 mode vectors",
 }
 CHUNK = 120
@@ -91,6 +91,13 @@ def cases(tier, seed):
     for pi in range(len(PROGRAMS)):
         for f in files:
             yield {"kind": "modes", "prog": pi, "file": f}
+    # scans that leave records out before the last scanned line (read, never offered)
+    for pi in range(4):
+        for f in files:
+            if len(f) < 3:
+                continue
+            for sc in ("1*", "1+3", "2-3"):
+                yield {"kind": "modes", "prog": pi, "file": f, "scan": sc}
 
 
 def sample(case):
@@ -186,11 +193,13 @@ def run_case(case):
     prog = PROGRAMS[pi]
     rows = [[] if ch == "b" else [ch, "1" if i % 2 == 0 else "2", str(i)] for i, ch in enumerate(pat)]
     path = sandbox.write_csv(rows)
-    cstr0 = f"prog={prog} file={pat!r}"
+    sc = case.get("scan", "*")
+    inwin = {"*": lambda i: True, "1*": lambda i: i >= 1, "1+3": lambda i: i in (1, 3), "2-3": lambda i: 2 <= i <= 3}[sc]
+    cstr0 = f"prog={prog} file={pat!r}" + (f" scan=[{sc}]" if sc != "*" else "")
     obs = {}
     for vec in itertools.product((0, 1), repeat=5):
         settings = " ".join(f"{MKEYS[i]}: {MODES[MKEYS[i]][vec[i]]}" for i in range(5))
-        text = f"~ {settings} ~ ${path}[*]{prog}"
+        text = f"~ {settings} ~ ${path}[{sc}]{prog}"
         # the standard-out printer is registered first and an extra printer after it (both orders of registration occur in practice)
         # (print_default False: the CsvPath starts WITHOUT a standard-out printer, only the capture printer is registered)
         obs[vec] = run.run_csvpath(text, print_default=((pi + len(pat)) % 2 == 0))
@@ -211,7 +220,7 @@ def run_case(case):
         # R2 return-mode
         if vec[0] == 0:
             other = obs[(1,) + vec[1:]]
-            cons = [r for r in nonblank if int(r[-1]) <= (o["last_line"] if o["last_line"] is not None else -1)]
+            cons = [r for r in nonblank if int(r[-1]) <= (o["last_line"] if o["last_line"] is not None else -1) and inwin(int(r[-1]))]
             got = sorted((o["lines"] or []) + (other["lines"] or []), key=lambda r: int(r[-1]))
             if other["exc"] is None:
                 if got != cons or any(l in (other["lines"] or []) for l in (o["lines"] or [])):
